@@ -232,7 +232,7 @@ const SWAP_WORDS: &[&str] = &["int", "float", "str", "bool", "void", "self", "st
 pub const FAULT_KINDS: &[&str] = &[
     "trunc-char", "trunc-line", "replace-char", "insert-char", "delete-char", "splice", "drop-lines", "dup-lines",
     "move-lines", "insert-foreign", "conflict", "multibyte", "token-soup", "empty", "crlf", "remove", "ioerr",
-    "insert-decl", "rename-ident", "swap-literal", "reflow", "alias-start", "wildcard-import",
+    "insert-decl", "rename-ident", "swap-literal", "reflow", "alias-start", "wildcard-import", "join-lines",
 ];
 
 fn make_fault(r: &mut Rng, kind: &str, file: &str, text: &str, corpus: &Corpus, c: &Concrete) -> Option<Fault> {
@@ -371,6 +371,21 @@ fn make_fault(r: &mut Rng, kind: &str, file: &str, text: &str, corpus: &Corpus, 
             positions.sort();
             positions.dedup();
             Fault::Reflow { file, positions, indent: *r.pick(&[0usize, 0, 1, 4, 8]) }
+        }
+        "join-lines" => {
+            // a lost line break: line k and line k+1 become one line (joined by a space, or by nothing)
+            let ls = lines_of(text);
+            if ls.len() < 2 {
+                return None;
+            }
+            let k = pick_line(r, text).min(ls.len() - 2);
+            let before: usize = ls[..=k].iter().map(|l| l.chars().count()).sum();
+            if !ls[k].ends_with('\n') {
+                return None;
+            }
+            // the line break is the last character of line k; the next line's indentation goes with it
+            let indent = ls[k + 1].chars().take_while(|c| *c == ' ' || *c == '\t').count();
+            Fault::ReplaceRange { file, at: before - 1, len: 1 + indent, text: (if r.chance(3, 4) { " " } else { "" }).to_string(), what: "join".into() }
         }
         "wildcard-import" => {
             // an import form the language does not have (yet): everything from a module this file already imports
